@@ -182,11 +182,17 @@ def render(tree):
 
 class Num:
     """a number: exact rational value and the largest magnitude met on the way (scale of the tolerance)"""
-    __slots__ = ('fr', 'mag')
+    __slots__ = ('fr', 'mag', 'fl')
 
-    def __init__(self, fr, mag=None):
+    def __init__(self, fr, mag=None, fl=None):
         self.fr = fr
         self.mag = max(abs(fr), mag or 0)
+        # shadow value in double arithmetic (what a straightforward evaluation in doubles gives): only used to recognise
+        # comparisons whose outcome depends on double rounding (no clause: C10 speaks of the given doubles, Excel of 15 digits)
+        try:
+            self.fl = float(fr) if fl is None else fl
+        except OverflowError:
+            self.fl = math.inf if fr > 0 else -math.inf
 
     def __repr__(self):
         return f'Num({float(self.fr)!r})'
@@ -274,6 +280,8 @@ def compare(op, a, b):
         x, y = a.fr, b.fr
         if x != y and abs(x - y) <= Fraction(1, 10 ** 9) * max(a.mag, b.mag, 1):
             raise Out('near tie')
+        if (x == y) != (a.fl == b.fl) or (x < y) != (a.fl < b.fl):
+            raise Out('the outcome depends on double rounding (an exact tie that doubles do not reproduce)')
     elif ka == 'bool':
         x, y = int(a), int(b)
     else:
@@ -307,13 +315,13 @@ def spec_eval(tree, opd=None, env=None, sheet=None, mode='excel'):
         if isinstance(v, Cat):
             raise Out('arithmetic on text')
         v = as_num(v)
-        return Num(-v.fr, v.mag) if tree[1] == '-' else Num(v.fr, v.mag)
+        return Num(-v.fr, v.mag, -v.fl) if tree[1] == '-' else Num(v.fr, v.mag, v.fl)
     if k == 'pct':
         v = spec_eval(tree[1], opd, env, sheet, mode)
         if isinstance(v, Cat):
             raise Out('arithmetic on text')
         v = as_num(v)
-        return Num(v.fr / 100, v.mag)                 # C16: x/100 (to 15 significant digits; inside the tolerance)
+        return Num(v.fr / 100, v.mag, v.fl / 100)     # C16: x/100 (to 15 significant digits; inside the tolerance)
     op = tree[1]
     a = spec_eval(tree[2], opd, env, sheet, mode)
     b = spec_eval(tree[3], opd, env, sheet, mode)
@@ -324,7 +332,11 @@ def spec_eval(tree, opd=None, env=None, sheet=None, mode='excel'):
         if op == '/' and b.fr == 0:
             raise Out('division by zero')
         fr = a.fr + b.fr if op == '+' else a.fr - b.fr if op == '-' else a.fr * b.fr if op == '*' else a.fr / b.fr
-        return Num(fr, max(a.mag, b.mag))
+        try:
+            fl = a.fl + b.fl if op == '+' else a.fl - b.fl if op == '-' else a.fl * b.fl if op == '*' else a.fl / b.fl
+        except (ZeroDivisionError, OverflowError):
+            fl = None
+        return Num(fr, max(a.mag, b.mag), fl)
     if op == '&':
         if mode == 'parts':
             out = Cat()
